@@ -17,7 +17,9 @@ import (
 	"encoding/binary"
 	"encoding/hex"
 	"encoding/json"
+	"fmt"
 	"regexp"
+	"sort"
 	"strconv"
 
 	"connectrpc.com/conformance/internal"
@@ -26,6 +28,7 @@ import (
 	"google.golang.org/protobuf/encoding/protowire"
 	"google.golang.org/protobuf/proto"
 	"google.golang.org/protobuf/reflect/protoreflect"
+	"google.golang.org/protobuf/types/known/structpb"
 )
 
 func init() {
@@ -41,8 +44,58 @@ type c18BadIn struct {
 	Type  string     `json:"type"`
 	Data  string     `json:"data"` // hex
 	Known []c18Known `json:"known"`
-	Kind  string     `json:"kind"`
+	// Tables: one field table per message type reachable from Type (index 0 = Type itself),
+	// regenerated from the descriptor: the tree the Lean model walks
+	Tables []c18Table `json:"tables"`
+	Kind   string     `json:"kind"`
 }
+type c18Entry struct {
+	Num int   `json:"num"`
+	WT  []int `json:"wt"`
+	Msg bool  `json:"msg"` // the field holds messages (singular, repeated, map entry) of table Sub
+	Sub int   `json:"sub"`
+}
+type c18Table struct {
+	Lenient bool       `json:"lenient"` // map entry: the library skips other field numbers
+	Entries []c18Entry `json:"entries"`
+}
+
+// c18TablesOf: the field tables of md and of every message type reachable from it.
+func c18TablesOf(md protoreflect.MessageDescriptor) []c18Table {
+	index := map[protoreflect.FullName]int{}
+	var order []protoreflect.MessageDescriptor
+	var visit func(d protoreflect.MessageDescriptor) int
+	visit = func(d protoreflect.MessageDescriptor) int {
+		if i, ok := index[d.FullName()]; ok {
+			return i
+		}
+		i := len(order)
+		index[d.FullName()] = i
+		order = append(order, d)
+		fds := d.Fields()
+		for k := 0; k < fds.Len(); k++ {
+			if m := fds.Get(k).Message(); m != nil {
+				visit(m)
+			}
+		}
+		return i
+	}
+	visit(md)
+	out := make([]c18Table, len(order))
+	for i, d := range order {
+		t := c18Table{Lenient: d.IsMapEntry(), Entries: []c18Entry{}}
+		for _, k := range c18KnownOf(d) {
+			e := c18Entry{Num: k.Num, WT: k.WT}
+			if m := d.Fields().ByNumber(protoreflect.FieldNumber(k.Num)).Message(); m != nil {
+				e.Msg, e.Sub = true, index[m.FullName()]
+			}
+			t.Entries = append(t.Entries, e)
+		}
+		out[i] = t
+	}
+	return out
+}
+
 type c18BadOut struct {
 	Class string `json:"class"` // ok | malformed | unknown | unprocessable | end-group | wire-type | not-proto | other:<text>
 	Num   int    `json:"num"`   // reported field number
@@ -254,8 +307,9 @@ func c18BadGen(c *gen.Ctx) {
 	for _, tn := range types {
 		md := c18NewMsg(tn).ProtoReflect().Descriptor()
 		known := c18KnownOf(md)
+		tables := c18TablesOf(md)
 		do := func(codec string, data []byte, kind string) {
-			c.Do("codecbad", c18BadIn{Codec: codec, Type: tn, Data: gen.Hex(data), Known: known, Kind: kind})
+			c.Do("codecbad", c18BadIn{Codec: codec, Type: tn, Data: gen.Hex(data), Known: known, Tables: tables, Kind: kind})
 			c.E.Count("kind:codecbad-" + kind)
 			n++
 		}
@@ -355,5 +409,206 @@ func c18BadGen(c *gen.Ctx) {
 			}
 		}
 	}
+	n += c18DeepGen(c, unkField, kinds)
 	c.E.Add("codecbad", n)
+}
+
+// ---------------------------------------------------------------- unknown fields at depth 1, 2, 3
+
+type c18Nested struct {
+	msg   protoreflect.Message
+	depth int
+	pos   string // singular | first | middle | last | only | mapvalue
+}
+
+// c18Collect lists the nested message instances of m (not m itself) in a fixed order.
+func c18Collect(m protoreflect.Message, depth int, out *[]c18Nested) {
+	fds := m.Descriptor().Fields()
+	for i := 0; i < fds.Len(); i++ {
+		fd := fds.Get(i)
+		if !m.Has(fd) {
+			continue
+		}
+		switch {
+		case fd.IsMap():
+			if fd.MapValue().Message() == nil {
+				continue
+			}
+			var keys []string
+			vals := map[string]protoreflect.Message{}
+			m.Get(fd).Map().Range(func(k protoreflect.MapKey, v protoreflect.Value) bool {
+				keys = append(keys, k.String())
+				vals[k.String()] = v.Message()
+				return true
+			})
+			sort.Strings(keys)
+			for _, k := range keys {
+				*out = append(*out, c18Nested{vals[k], depth + 1, "mapvalue"})
+				c18Collect(vals[k], depth+1, out)
+			}
+		case fd.Message() == nil:
+		case fd.IsList():
+			l := m.Get(fd).List()
+			for k := 0; k < l.Len(); k++ {
+				pos := "middle"
+				switch {
+				case l.Len() == 1:
+					pos = "only"
+				case k == 0:
+					pos = "first"
+				case k == l.Len()-1:
+					pos = "last"
+				}
+				*out = append(*out, c18Nested{l.Get(k).Message(), depth + 1, pos})
+				c18Collect(l.Get(k).Message(), depth+1, out)
+			}
+		default:
+			*out = append(*out, c18Nested{m.Get(fd).Message(), depth + 1, "singular"})
+			c18Collect(m.Get(fd).Message(), depth+1, out)
+		}
+	}
+}
+
+// c18FillDeep populates every message-typed field of m down to the given depth (three elements
+// per repeated field, so that there is a first, a middle and a last one) and some scalars.
+func c18FillDeep(r *gen.Rand, m protoreflect.Message, depth int) {
+	fds := m.Descriptor().Fields()
+	seenOneof := map[protoreflect.FullName]bool{}
+	for i := 0; i < fds.Len(); i++ {
+		fd := fds.Get(i)
+		if od := fd.ContainingOneof(); od != nil {
+			if seenOneof[od.FullName()] {
+				continue
+			}
+			// prefer a message-typed member of the oneof
+			pick := fd
+			for k := 0; k < od.Fields().Len(); k++ {
+				if od.Fields().Get(k).Message() != nil && r.Bool() {
+					pick = od.Fields().Get(k)
+				}
+			}
+			seenOneof[od.FullName()] = true
+			fd = pick
+		}
+		switch {
+		case fd.IsMap():
+		case fd.Message() != nil && fd.Message().FullName() == "google.protobuf.Any":
+			if fd.IsList() {
+				l := m.Mutable(fd).List()
+				for k := 0; k < 2; k++ {
+					e := l.NewElement()
+					c18FillMsg(r, e.Message(), 1)
+					l.Append(e)
+				}
+			} else {
+				c18FillMsg(r, m.Mutable(fd).Message(), 1)
+			}
+		case fd.Message() != nil:
+			if depth <= 0 {
+				continue
+			}
+			if fd.IsList() {
+				l := m.Mutable(fd).List()
+				for k := 0; k < 3; k++ {
+					e := l.NewElement()
+					c18FillDeep(r, e.Message(), depth-1)
+					l.Append(e)
+				}
+			} else {
+				c18FillDeep(r, m.Mutable(fd).Message(), depth-1)
+			}
+		case fd.IsList():
+			if r.Bool() {
+				m.Mutable(fd).List().Append(c18RandScalar(r, fd))
+			}
+		default:
+			if r.Bool() {
+				m.Set(fd, c18RandScalar(r, fd))
+			}
+		}
+	}
+}
+
+// c18DeepGen: unknown fields of every wire type next to the known fields of nested messages at
+// depth 1, 2 and 3: in singular message fields, in the first / middle / last element of repeated
+// message fields, in map values (google.protobuf.Struct) and inside google.protobuf.Any messages.
+func c18DeepGen(c *gen.Ctx, unkField func(protowire.Number, string) []byte, kinds []string) int {
+	r := c.R
+	n := 0
+	bases := []proto.Message{}
+	for _, tn := range []string{"connectrpc.conformance.v1.UnaryRequest", "connectrpc.conformance.v1.ClientCompatRequest",
+		"connectrpc.conformance.v1.ClientResponseResult", "connectrpc.conformance.v1.TestSuite"} {
+		m := c18NewMsg(tn)
+		c18FillDeep(r, m.ProtoReflect(), 4)
+		bases = append(bases, m)
+	}
+	st, err := structpb.NewStruct(map[string]any{
+		"a": map[string]any{"b": map[string]any{"c": 1.0, "d": map[string]any{}}, "e": "x"},
+		"k": []any{map[string]any{"l": true}, "s", map[string]any{}},
+		"z": map[string]any{},
+	})
+	if err != nil {
+		panic(err)
+	}
+	bases = append(bases, st)
+	for _, base := range bases {
+		tn := string(base.ProtoReflect().Descriptor().FullName())
+		tables := c18TablesOf(base.ProtoReflect().Descriptor())
+		known := c18KnownOf(base.ProtoReflect().Descriptor())
+		var nested []c18Nested
+		c18Collect(base.ProtoReflect(), 0, &nested)
+		clean, _ := proto.MarshalOptions{Deterministic: true}.Marshal(base)
+		c.Do("codecbad", c18BadIn{Codec: "proto", Type: tn, Data: gen.Hex(clean), Known: known, Tables: tables, Kind: "deep-valid"})
+		n++
+		// at most a few instances per (depth, position) class, all kinds of unknown field
+		perClass := map[string]int{}
+		limit := 2
+		if c.Thorough() {
+			limit = 8
+		}
+		for idx, ne := range nested {
+			if ne.depth > 3 {
+				continue
+			}
+			class := fmt.Sprintf("d%d-%s", ne.depth, ne.pos)
+			if perClass[class] >= limit {
+				continue
+			}
+			perClass[class]++
+			for _, kind := range kinds {
+				for _, num := range []protowire.Number{1999, 1<<29 - 1} {
+					if num != 1999 && kind != "varint" && kind != "group" {
+						continue
+					}
+					cp := proto.Clone(base)
+					var again []c18Nested
+					c18Collect(cp.ProtoReflect(), 0, &again)
+					again[idx].msg.SetUnknown(unkField(num, kind))
+					data, err := proto.MarshalOptions{Deterministic: true}.Marshal(cp)
+					if err != nil {
+						continue
+					}
+					k := "deep-unknown-" + kind + "-" + class
+					c.Do("codecbad", c18BadIn{Codec: "proto", Type: tn, Data: gen.Hex(data), Known: known, Tables: tables, Kind: k})
+					c.E.Count("kind:codecbad-deep-" + class)
+					n++
+				}
+			}
+		}
+		// two nested messages with unknown fields at once, and top-level plus nested
+		if len(nested) >= 2 {
+			cp := proto.Clone(base)
+			var again []c18Nested
+			c18Collect(cp.ProtoReflect(), 0, &again)
+			again[0].msg.SetUnknown(unkField(1999, "varint"))
+			again[len(again)-1].msg.SetUnknown(unkField(2999, "bytes"))
+			data, _ := proto.MarshalOptions{Deterministic: true}.Marshal(cp)
+			c.Do("codecbad", c18BadIn{Codec: "proto", Type: tn, Data: gen.Hex(data), Known: known, Tables: tables, Kind: "deep-unknown-two"})
+			cp.ProtoReflect().SetUnknown(unkField(3999, "fixed32"))
+			data, _ = proto.MarshalOptions{Deterministic: true}.Marshal(cp)
+			c.Do("codecbad", c18BadIn{Codec: "proto", Type: tn, Data: gen.Hex(data), Known: known, Tables: tables, Kind: "deep-unknown-top-and-nested"})
+			n += 2
+		}
+	}
+	return n
 }
